@@ -118,7 +118,7 @@ func c05Exponents(pk *gabikeys.PublicKey) []c05E {
 func c05Run(t *testing.T, sub, keyName string, honestBlocks int, qb, tb time.Duration) {
 	r := vkit.Start(t, "C05", sub, qb, tb)
 	defer r.Finish()
-	r.Rule = "honest signing + randomisation with each random draw forced to min/max/short (<=1 deviation); honest: message blocks of every length 1..len(R) (values rotate through {0,1,50,2^Lm-1,2^Lm,2^(Lm+200)+c}) signed by SignMessageBlock, verified, randomised 1..4 times; forged (trapdoor, equation holds): exponent catalogue of ~35 boundary primes/composites x 2 message blocks; alterations: every component +-1/0/swap, message count, other key, KeyshareP; non-trivial = distinct (block,e) or (block,alteration); oracle: reference CL predicate"
+	r.Rule = "honest signing + randomisation with each random draw forced to min/max/short (<=1 deviation); honest: message blocks of every length 1..len(R) (values rotate through {0,1,50,2^Lm-1,2^Lm,2^(Lm+200)+c}) signed by SignMessageBlock, verified, randomised 1..4 times; forged (trapdoor, equation holds): exponent catalogue of ~35 boundary primes/composites x 2 message blocks; alterations: every component +-1/0/swap, message count, other key, KeyshareP, each also on a struct copy of a previously verified signature object; non-trivial = distinct (block,e) or (block,alteration); oracle: reference CL predicate"
 	k := vfK(keyName)
 	pk := k.Pk
 	env := vfInstallEnv(t, "C05/"+sub, r.Seed)
@@ -276,7 +276,17 @@ func c05Run(t *testing.T, sub, keyName string, honestBlocks int, qb, tb time.Dur
 			r.Eval()
 			r.Nontrivial(fmt.Sprintf("alt|%d|%s", bi, a.name))
 			var ok bool
-			if pan, _ := vkit.Guard(func() { ok = s2.Verify(key, m2) }); pan {
+			if pan, _ := vkit.Guard(func() {
+				ok = s2.Verify(key, m2)
+				// the same alteration on a struct copy of the signature object that was verified above
+				// (whatever Verify keeps inside the object travels with the copy)
+				s3 := *sig
+				s3.A, s3.E, s3.V, s3.KeyshareP = vfCopy(sig.A), vfCopy(sig.E), vfCopy(sig.V), vfCopy(sig.KeyshareP)
+				key3 := pk
+				if m3 := a.f(&s3, ms, &key3); m3 != nil {
+					ok = s3.Verify(key3, m3) || ok
+				}
+			}); pan {
 				r.Count("panic (not accepted)", 1)
 				continue
 			}
@@ -292,6 +302,12 @@ func c05Run(t *testing.T, sub, keyName string, honestBlocks int, qb, tb time.Dur
 	}
 	// (b) forged exponents
 	exps := c05Exponents(pk)
+	validE := exps[0].e
+	for _, ce := range exps {
+		if ce.name == "prime inside" {
+			validE = ce.e
+		}
+	}
 	r.Bounds["exponent_catalogue"] = len(exps)
 	kp := new(big.Int).Exp(pk.R[0], vfTag("kss-secret"), pk.N)
 	for _, ms := range [][]*big.Int{{vfTag("m0"), vfInt(50)}, blocks[len(blocks)-1]} {
@@ -313,7 +329,18 @@ func c05Run(t *testing.T, sub, keyName string, honestBlocks int, qb, tb time.Dur
 				r.Nontrivial(fmt.Sprintf("forged|%d|%v|%s", len(ms), withKP, ce.name))
 				want := c05RefVerify(pk, sig, ms)
 				var got bool
-				if pan, msg := vkit.Guard(func() { got = sig.Verify(pk, ms) }); pan {
+				if pan, msg := vkit.Guard(func() {
+					got = sig.Verify(pk, ms)
+					// the forged values written into a struct copy of a valid signature object that was verified before
+					if valid := c05Forge(k, ms, validE, kpp); valid != nil && valid.Verify(pk, ms) {
+						cp := *valid
+						cp.A, cp.E, cp.V, cp.KeyshareP = vfCopy(sig.A), vfCopy(sig.E), vfCopy(sig.V), vfCopy(sig.KeyshareP)
+						if cp.Verify(pk, ms) && !got {
+							got = true
+							r.Count("accepted only on a previously verified object", 1)
+						}
+					}
+				}); pan {
 					r.Count("panic (not accepted)", 1)
 					_ = msg
 				}
